@@ -299,11 +299,21 @@ Theorem C10_step_from_first_value :
 Proof. exact (fun name f v0 pre v => from_first_value name f v0 pre v (fun _ _ => Logic.I)). Qed.
 Print Assumptions C10_step_from_first_value.
 
-(* every record is emitted exactly once: FALSE for shift_lead_n with n >= 2 on a group with fewer than n records *)
-Theorem C10_step_emits_every_record_refuted :
-  exists sps fs gs rs, (List.length (verb_step sps fs gs rs) < List.length rs)%nat.
-Proof. exact shift_lead_drops_records. Qed.
-Print Assumptions C10_step_emits_every_record_refuted.
+(* every record is emitted exactly once.  PARTIAL: stated on the witnesses of the repaired defect (fix: b0d126048; before it
+   shift_lead_n, n >= 2, lost the records of groups shorter than n: C10_step_emits_every_record_refuted of the earlier rounds)
+   -- a one-record stream under shift_lead_2, and two interleaved short groups under shift_lead_3 + counter: every record comes
+   out once, in arrival order, with an empty look-ahead value.  The statement for ALL streams (length (verb_step ..) = length rs)
+   is not proved; the correspondence check and the oracle compare the record counts on every generated stream. *)
+Theorem C10_step_emits_records_of_short_groups_partial :
+  verb_step [(SShiftLead 2, B "shift_lead_2")] [B "x"] [] [[(B "x", B "1")]]
+  = [[(B "x", OText (B "1")); (B "x_shift_lead_2", OText [])]]
+  /\ verb_step [(SShiftLead 3, B "shift_lead_3"); (SCounter, B "counter")] [B "x"] [B "g"]
+               [[(B "g", B "a"); (B "x", B "1")]; [(B "g", B "b"); (B "x", B "5")]; [(B "g", B "a"); (B "x", B "2")]]
+     = [[(B "g", OText (B "a")); (B "x", OText (B "1")); (B "x_shift_lead_3", OText []); (B "x_counter", OInt 1)];
+        [(B "g", OText (B "b")); (B "x", OText (B "5")); (B "x_shift_lead_3", OText []); (B "x_counter", OInt 1)];
+        [(B "g", OText (B "a")); (B "x", OText (B "2")); (B "x_shift_lead_3", OText []); (B "x_counter", OInt 2)]].
+Proof. exact shift_lead_short_group_is_emitted. Qed.
+Print Assumptions C10_step_emits_records_of_short_groups_partial.
 
 Example C10_nonvacuous_verbs :
   verb_fraction [B "x"] [] false false [[(B "x", B "1")]; [(B "x", B "3")]]
@@ -726,3 +736,141 @@ Example C10_nonvacuous_dsl :
   all_num [B "4"; B "5"; B "9.5"] = true /\ no_strings [B "4"; B ""; B "9.5"] = true
   /\ dsl_stat DMean [B "4"; B "5"; B "9"] = OInt 6 /\ dsl_stat DCount [B "4"; B ""; B "x"] = OInt 3.
 Proof. vm_compute. repeat split; reflexivity. Qed.
+
+(* ================================================================== round 3: stats1 as a whole (Verbs4.v) *)
+From Miller Require Import C10.Verbs4 C10.ProofsStats1G.
+(* names given twice in -a / -f are kept once (fix: 354e61d24): the NoDup hypotheses of C10_stats1_cell_is_accumulator_run
+   hold for what the verb runs on, for ANY -a and -f lists; every requested name survives *)
+Theorem C10_stats1_names_given_twice_are_kept_once :
+  forall accs fs, NoDup (uniq_names fs) /\ NoDup (map req_text (uniq_accs accs))
+    /\ (forall f, In f (uniq_names fs) <-> In f fs)
+    /\ (forall a, In a accs -> In (req_text a) (map req_text (uniq_accs accs)))
+    /\ (forall a, In a (uniq_accs accs) -> In a accs).
+Proof.
+  exact (fun accs fs =>
+           conj (uniq_names_nodup fs)
+          (conj (uniq_accs_nodup accs)
+          (conj (fun f => uniq_names_in f fs)
+          (conj (fun a => uniq_accs_texts a accs)
+                (fun a => uniq_accs_sub a accs))))).
+Qed.
+Print Assumptions C10_stats1_names_given_twice_are_kept_once.
+
+(* stats1 with value fields by name (-f) or by regex (--fr/--fx) and group-by fields by name (-g) or by regex (--gr/--gx):
+   the accumulator state of (group k, value field f selected by the option, accumulator a) is that accumulator fed exactly the
+   values of f over the members of group k (the partition by the grouping key), in arrival order -- nothing from other groups or
+   fields, every contributing record once; no hypothesis on the -a/-f lists; regex selection needs records with distinct names *)
+Theorem C10_stats1_any_selection_cell_sees_exactly_its_group :
+  forall accs fsl gsl rs k f a,
+    sel_wf fsl rs -> fsel_selects fsl f = true -> In a (uniq_accs accs) ->
+    (match oget k (stats1g_groups accs fsl gsl rs) with
+     | Some pl => match oget f (snd pl) with Some l3 => oget (req_text a) l3 | None => None end
+     | None => None
+     end
+     = match values_of f (members (gkey_sel gsl) k rs) with
+       | [] => None
+       | vs => Some (fold_left (feed (fst a)) vs st0)
+       end)
+    /\ match oget k (stats1g_groups accs fsl gsl rs), members (gkey_sel gsl) k rs with
+       | Some pl, r0 :: _ => fst pl = dflt_pairs (gpairs gsl r0)
+       | None, [] => True
+       | _, _ => False
+       end.
+Proof. exact stats1g_cell_sees_exactly_its_group. Qed.
+Print Assumptions C10_stats1_any_selection_cell_sees_exactly_its_group.
+
+Theorem C10_stats1_any_selection_groups_are_the_partition :
+  forall accs fsl gsl rs,
+    stats1g_groups accs fsl gsl rs
+    = spec_groups (gkey_sel gsl) (fun r => (dflt_pairs (gpairs gsl r), [])) (fun s r => (fst s, ingest_sel accs fsl r (snd s))) rs.
+Proof. exact stats1g_groups_def. Qed.
+Print Assumptions C10_stats1_any_selection_groups_are_the_partition.
+
+(* --gr/--gx (fix: 06ddd9e93): the matched field names are part of the group.  Records with one matched group-by field each
+   are in the same group exactly when the field name AND the text are the same (names without "="); before the repair a=1 and
+   b=1 were one group.  PARTIAL for several matched fields: name=value pairs are joined with ",", so texts holding ",name="
+   can still collide (the comma-joined key of finding group-key-comma-collision) *)
+Theorem C10_stats1_regex_group_key_exact_name_and_text_partial :
+  forall inv ps r1 r2 n1 v1 n2 v2,
+    gmatched inv ps r1 = [(n1, v1)] -> gmatched inv ps r2 = [(n2, v2)] -> ~ In "="%char n1 -> ~ In "="%char n2 ->
+    (gkey_sel (GRegex inv ps) r1 = gkey_sel (GRegex inv ps) r2 <-> n1 = n2 /\ v1 = v2).
+Proof. exact regex_group_key_single_field. Qed.
+Print Assumptions C10_stats1_regex_group_key_exact_name_and_text_partial.
+
+Example C10_nonvacuous_stats1_selection :
+  let rs := [[(B "a", B "1"); (B "x", B "3"); (B "xy", B "7")]; [(B "b", B "1"); (B "x", B "4")]; [(B "a", B "1"); (B "x", B "5")]] in
+  let gsl := GRegex false [mkpat true true (B "a"); mkpat true true (B "b")] in
+  let fsl := FRegex false [mkpat true false (B "x")] in
+  sel_wf fsl rs /\ fsel_selects fsl (B "xy") = true /\ In (ASum, []) (uniq_accs [(ASum, []); (ACount, []); (ASum, [])])
+  /\ gkey_sel gsl (nth 0 rs []) <> gkey_sel gsl (nth 1 rs [])
+  /\ verb_stats1g false [(ASum, []); (ACount, []); (ASum, [])] fsl gsl rs
+     = [[(B "a", OText (B "1")); (B "x_sum", OInt 8); (B "x_count", OInt 2); (B "xy_sum", OInt 7); (B "xy_count", OInt 1)];
+        [(B "b", OText (B "1")); (B "x_sum", OInt 4); (B "x_count", OInt 1)]]
+  /\ gmatched false [mkpat true true (B "a"); mkpat true true (B "b")] (nth 1 rs []) = [(B "b", B "1")].
+Proof. vm_compute. repeat split; try reflexivity; try discriminate; try (repeat constructor); auto. Qed.
+
+(* ================================================================== round 3: stats2 (Verbs5.v) *)
+From Miller Require Import C10.Verbs5 C10.ProofsStats2.
+(* the sums kept for (group k, pair p of value fields) are the sums over exactly the numeric (x, y) pairs of the members of
+   group k that carry both fields non-empty, in arrival order; no entry (no output fields) before the first such record *)
+Theorem C10_stats2_cell_sees_exactly_its_group :
+  forall ps gs rs k p, NoDup (map pair_key ps) -> In p ps ->
+    match oget k (stats2_groups ps gs rs) with Some e => oget (pair_key p) (snd e) | None => None end
+    = match pair_values p (members (group_key gs) k rs) with [] => None | xys => Some (fold_left s2_ingest xys s2st0) end.
+Proof. exact stats2_cell_sees_exactly_its_group. Qed.
+Print Assumptions C10_stats2_cell_sees_exactly_its_group.
+
+(* streaming = definition: count, sum x, sum y, sum x^2, sum xy, sum y^2 are the definitional sums, for every order of arrival *)
+Theorem C10_stats2_sums_are_the_definitional_sums : forall l, s2eq (fold_left s2_ingest l s2st0) l.
+Proof. exact s2_sums_are_definitional. Qed.
+Print Assumptions C10_stats2_sums_are_the_definitional_sums.
+
+(* cov: the streamed formula = sum (x - mean_x)(y - mean_y) / (n - 1) *)
+Theorem C10_stats2_cov_equals_definition :
+  forall l, (2 <= List.length l)%nat -> (cov_of (fold_left s2_ingest l s2st0) == cxy l / (nq l - 1))%Q.
+Proof. exact cov_stream_eq_def. Qed.
+Print Assumptions C10_stats2_cov_equals_definition.
+
+(* linreg-ols: m and b solve the normal equations of the least-squares fit whenever D <> 0, and D = n sum (x - mean_x)^2 *)
+Theorem C10_stats2_ols_solves_the_normal_equations :
+  forall l, let s := fold_left s2_ingest l s2st0 in
+    (~ (ols_D s == 0)%Q ->
+     (ols_m s * sumq (fun p => fst p * fst p) l + ols_b s * sumq fst l == sumq (fun p => fst p * snd p) l)%Q
+     /\ (ols_m s * sumq fst l + ols_b s * nq l == sumq snd l)%Q)
+    /\ (l <> [] -> (ols_D s == nq l * cxx l)%Q).
+Proof. exact (fun l => conj (ols_solves_normal_equations l) (ols_D_is_n_cxx l)). Qed.
+Print Assumptions C10_stats2_ols_solves_the_normal_equations.
+
+(* r2: numerator and denominator of the streamed quotient are n^2 cxy^2 and n^2 cxx cyy: r2 = cxy^2 / (cxx cyy) *)
+Theorem C10_stats2_r2_equals_definition :
+  forall l, l <> [] -> let s := fold_left s2_ingest l s2st0 in
+    (r2_num s == nq l * nq l * (cxy l * cxy l))%Q /\ (r2_den s == nq l * nq l * (cxx l * cyy l))%Q.
+Proof. exact r2_stream_eq_def. Qed.
+Print Assumptions C10_stats2_r2_equals_definition.
+
+Example C10_nonvacuous_stats2 :
+  let rs := [[(B "g", B "a"); (B "x", B "1"); (B "y", B "2")]; [(B "g", B "b"); (B "x", B "5"); (B "y", B "5")];
+             [(B "g", B "a"); (B "x", B "2"); (B "y", B "")]; [(B "g", B "a"); (B "x", B "3"); (B "y", B "8")]] in
+  NoDup (map pair_key (pairs_of_list [B "x"; B "y"])) /\ In (B "x", B "y") (pairs_of_list [B "x"; B "y"])
+  /\ pair_values (B "x", B "y") (members (group_key [B "g"]) (B "a") rs) = [(1, 2); (3, 8)]
+  /\ verb_stats2 [S2Ols; S2Cov] [B "x"; B "y"] [B "g"] rs
+     = [[(B "g", OText (B "a")); (B "x_y_ols_m", OFlt (Qmake 12 4)); (B "x_y_ols_b", OFlt (Qmake (-4) 4)); (B "x_y_ols_n", OInt 2);
+         (B "x_y_cov", OFlt (cov_of (mks2 2 4 10 10 26 68)))];
+        [(B "g", OText (B "b")); (B "x_y_ols_m", OVoid); (B "x_y_ols_b", OVoid); (B "x_y_ols_n", OInt 1); (B "x_y_cov", OVoid)]].
+Proof. vm_compute. repeat split; try reflexivity; repeat constructor; cbn; intuition discriminate. Qed.
+
+(* ================================================================== var / stddev / meaneb of ints (fix: exact integer sums) *)
+From Miller Require Import C10.ProofsVarInt.
+(* the finalizer of the model (the streaming formula taken exactly over Q) IS the quotient (n sum2 - sum^2) / (n (n-1)) the
+   repaired code computes from the exact integer sums with one rounding; C10_var_equals_definition ties it to sum (x-mean)^2/(n-1) *)
+Theorem C10_var_finalizer_is_the_exact_integer_quotient :
+  forall n s1 s2, (2 <= n)%Z -> (0 <= inject_Z n * s2 - s1 * s1)%Q ->
+    exists q, finalize_var n s1 s2 = Some q /\ (q == (inject_Z n * s2 - s1 * s1) / (inject_Z n * inject_Z (n - 1)))%Q.
+Proof. exact var_finalizer_is_exact_quotient. Qed.
+Print Assumptions C10_var_finalizer_is_the_exact_integer_quotient.
+
+(* the witness of the repaired defect (the float formula gave 512) *)
+Theorem C10_var_of_timestamp_scale_ints_instance :
+  exists q, run_acc false AVar [B "1700000001"; B "1700000004"; B "1700000002"] = OFlt q /\ (q == 7 # 3)%Q.
+Proof. exact var_timestamps_instance. Qed.
+Print Assumptions C10_var_of_timestamp_scale_ints_instance.
